@@ -232,6 +232,69 @@ pub fn run(reg: &dyn Registry, ctx: &Ctx) -> Outcome {
         };
         maps.push(MapSpec { name, f: Box::new(f), n_in: 64, injective_in: vec![("pool", 0, 64)], base: None });
     }
+    // a whole test_timer call, succeeding and failing in each documented way (early return at a zero
+    // reading / zero delta, full run ending in an error): every probe folds a time value, so the pool
+    // after the call is a one-to-one image of the pool before it, whatever the verdict
+    {
+        use super::c13::{build, healthy, Probe};
+        let base = healthy();
+        let mut variants: Vec<(&'static str, Vec<Probe>)> = vec![("test_timer returning Ok", base.clone())];
+        let mut p = base.clone();
+        p[37].zero_time = true;
+        variants.push(("test_timer failing with a zero reading at probe 37", p));
+        let mut p = base.clone();
+        p[5].d = 0;
+        variants.push(("test_timer failing with a zero delta at probe 5", p));
+        let mut p = base.clone();
+        for q in p.iter_mut().skip(100) {
+            q.d = 4242;
+        }
+        variants.push(("test_timer failing after a full run (constant deltas)", p));
+        let mut p = base.clone();
+        for (j, q) in p.iter_mut().enumerate().skip(100) {
+            q.d = 100 * (7 + (j % 13) as i64);
+        }
+        variants.push(("test_timer failing after a full run (deltas multiples of 100)", p));
+        let mut p = base.clone();
+        for q in p.iter_mut().skip(100).step_by(40) {
+            q.d = -70;
+        }
+        variants.push(("test_timer failing after a full run (backward probes)", p));
+        for (name, probes) in variants {
+            let readings = build(&probes);
+            let f = move |x: &BitVec| -> Result<BitVec, String> {
+                let (mut g, _) = jitter_env::jitter_with(reg, readings.clone(), None);
+                guarded(|| {
+                    let j = g.jitter().unwrap();
+                    j.set_pool(x.w[0]);
+                    let _ = j.test_timer();
+                    u64_bits(j.pool())
+                })
+                .map_err(|o| format!("{:?}", o))
+            };
+            maps.push(MapSpec { name, f: Box::new(f), n_in: 64, injective_in: vec![("pool", 0, 64)], base: None });
+        }
+    }
+    // one fold while a half word is pending (after an odd next_u32)
+    {
+        let pre = jitter_env::raw_readings(ctx.seed ^ 0x15F1, jitter_env::readings_per_word(1) + 2);
+        let f = move |x: &BitVec| -> Result<BitVec, String> {
+            let (p, t) = (x.w[0], x.w[1]);
+            let mut readings = pre.clone();
+            readings.truncate(jitter_env::readings_per_word(1));
+            readings.extend([t, t.wrapping_add(12345)]);
+            let (mut g, _) = jitter_env::jitter_with(reg, readings, Some(1));
+            guarded(|| {
+                g.next_u32();
+                let j = g.jitter().unwrap();
+                j.set_pool(p);
+                j.timer_stats(false);
+                u64_bits(j.pool())
+            })
+            .map_err(|o| format!("{:?}", o))
+        };
+        maps.push(MapSpec { name: "lfsr-fold(pool,time) with a half word pending", f: Box::new(f), n_in: 128, injective_in: vec![("pool (time fixed)", 0, 64), ("time (pool fixed)", 64, 128)], base: None });
+    }
     // one fold after a previous fold on the same object (anything a fold remembers for the next one):
     // first timer_stats(true) over [t1][loop count][loop count][t1'], then the pool is set and one more
     // fold of time t is observed; extracted around t = t1 so that times agreeing with t1 in their low /
@@ -273,7 +336,7 @@ pub fn run(reg: &dyn Registry, ctx: &Ctx) -> Outcome {
         };
         ctx.add("states", n as u64 + 1);
         ctx.add("basis_executions", n as u64 + 1);
-        let heavy = m.name.contains("consecutive stuck") || m.name.contains("then a collection") || m.name.contains("two collections") || m.name.contains("clone");
+        let heavy = m.name.contains("consecutive stuck") || m.name.contains("then a collection") || m.name.contains("two collections") || m.name.contains("clone") || m.name.contains("test_timer");
         let mut xs = inputs(n, ctx.seed, (n == 64 && !heavy) || thorough);
         if heavy && !thorough {
             xs.truncate(64 + 1 + 2016 + 64 + 1 + 256);
